@@ -20,10 +20,12 @@ SEQS = {'quick': 60, 'thorough': 1500}
 EXHAUSTIVE = {'quick': True, 'thorough': True}
 EXHAUSTIVE_NOTE = {'quick': 'grid widths 1..64 x 5 values x offsets 0..7 for uint/int/set_uint fully enumerated',
                    'thorough': 'grid widths 1..64 x 5 values x offsets 0..7 for uint/int/set_uint fully enumerated'}
-REQUIRED = {'quick': {'grid_uint': 2528, 'grid_int': 2000, 'grid_set_uint': 2528, 'sequences': 500,
-                      'past_end_reads': 500, 'refusals': 300},
-            'thorough': {'grid_uint': 2528, 'grid_int': 2000, 'grid_set_uint': 2528, 'sequences': 15000,
-                         'past_end_reads': 10000, 'refusals': 300}}
+REQUIRED = {'quick': {'grid_uint': 2528, 'grid_int': 2000, 'grid_set_uint': 2528, 'sequences': 380, 'past_end_reads': 500,
+                      'refusals': 300},
+            'thorough': {'grid_uint': 2528, 'grid_int': 2000, 'grid_set_uint': 2528, 'sequences': 9600,
+                      'past_end_reads': 10000, 'refusals': 300}}
+
+
 MONITORS = ('tape', 'telemetry')
 
 
